@@ -326,6 +326,7 @@ class Check:
         self.extra = {}
         self.assumptions = []
         self.violations = []   # (key, what, replay dict)
+        self._vkeys = set()
         self.known_seen = {}
         self.drift = 0
         self.drift_samples = []
@@ -352,9 +353,11 @@ class Check:
             if known_match(k, key):
                 self.known_seen.setdefault(k.get("id", k.get("key", k.get("key_regex"))), (k, key, what))
                 return
-        if any(v[0] == key for v in self.violations):
+        if key in self._vkeys:
             return
-        self.violations.append((key, what, replay))
+        self._vkeys.add(key)
+        # (the replay record is kept for the cases that are printed; a change that breaks everything breaks 10^5 cases)
+        self.violations.append((key, what, replay if len(self.violations) < 200 else None))
 
     def note_drift(self, what):
         self.drift += 1
